@@ -244,6 +244,14 @@ class StoreDriver(object):
                             mutate_in_place(rec3.get_data(kk))
                             if not same_value(rec3.get_data(kk), data[kk]):
                                 mm('aliasing', idx, data[kk], rec3.get_data(kk), 'second read of key %r sees a mutation of the first' % kk)
+                elif k == 'resave':
+                    rid = ids[e['id'] - 1]
+                    try:
+                        again = reader_factory().get_recording(rid) if self.config != 'memory' else writer.get_recording(rid)
+                        again.add_metadata({})
+                        writer.save_recording(again)
+                    except Exception as ex:  # noqa
+                        mm('save', idx, 'saved again', repr(ex), 'saving a fetched recording again under its id failed')
                 elif k == 'getmeta':
                     rid = ids[e['id'] - 1]
                     data, pm = saved[e['id'] - 1]
